@@ -12,6 +12,24 @@ NOTE_COMMON = ("Trusted: Lean kernel + Mathlib, axioms {propext, Classical.choic
                "Fraction/int/float semantics. ")
 
 CHECKS = {
+    "C01": dict(
+        text=("Deep-embedded query algebra (Model/Query.lean: expressions, with_columns / group-by-aggregate stages, an "
+              "evaluator over tables in any ordered field) with the three pipelines aggr.py builds (Narwhals two-pass, "
+              "Ibis native var/cov, Ibis SQL-demeaning fallback). Theorems: for every table, every grouped request with "
+              "validated column lists and >= 2 rows per variant, evaluating each pipeline yields one row per distinct "
+              "variant holding exactly n, sum/n, sum (x-mean)^2/(n-1), sum (x-mx)(y-my)/(n-1); plus a kernel-checked "
+              "counterexample showing demeaning by the overall mean is wrong. Tie: structural - the real pipelines are "
+              "captured from aggr.py (narwhals expression nodes, ibis op graph incl. a fake native backend) and compared "
+              "token by token with the model's builders on random requests; float mode on pandas, Polars eager/lazy, "
+              "PyArrow, Ibis-SQLite against exact rational statistics. Search: a differing captured pipeline is evaluated "
+              "in Lean on rational tables against the specification."),
+        note=NOTE_COMMON + "Meaning of the back ends' primitives (mean, len, sum, window mean, var/cov how=sample) is "
+             "trusted as Query.evalRow states it; the native Ibis branch cannot be executed here (no installed Ibis "
+             "backend has Variance and Covariance) and is tied structurally only. Floating point is checked with a "
+             "conditioning-scaled tolerance, not proved. Ungrouped / means-only pipelines: structural + float, not proved.",
+        technique="Lean 4 proof over hand-written query model + structural capture correspondence + float cross-backend check",
+        design="6/C01",
+    ),
     "C14": dict(
         text=("Theorems over the Lean definitions regenerated from aggr.py on every run: aggrOf(s1++s2) = aggrOf s1 + "
               "aggrOf s2 for all sample sizes >= 2 in any ordered field, commutativity, associativity, ratio_var/"
